@@ -5,7 +5,7 @@ import time
 from datetime import datetime
 from typing import TYPE_CHECKING, Coroutine, cast
 
-from repid._utils import _ArgsBucketInMessageId, _NoAction
+from repid._utils import _ArgsBucketInMessageId, _CurrentDelivery, _NoAction
 from repid.actor import ActorData, ActorResult
 from repid.dependencies import DependencyKind, ResolverContext
 from repid.logger import logger
@@ -28,8 +28,8 @@ class _Processor:
         self.actor_run = middleware_wrapper(self._actor_run, name="actor_run")
         self.actor_run._repid_signal_emitter = self._conn.middleware.emit_signal
         self._processed = 0
-        # ids of the messages whose disposition (ack / nack / requeue) has been started
-        self._disposing: set[str] = _conn._disposing
+        # the deliveries (see `_CurrentDelivery`) whose disposition (ack / nack / requeue) has been started
+        self._disposing: set[object] = _conn._disposing
 
     async def get_payload(self, initial_payload: str) -> str:
         if _ArgsBucketInMessageId.check(initial_payload):
@@ -145,7 +145,10 @@ class _Processor:
             finished_when=time.time_ns(),
             # an eager response which was cut short (e.g. by the time limit) has disposed of the
             # message all the same: there is nothing left to report
-            reporting_done=key.id_ in connection._disposing,
+            reporting_done=(
+                _CurrentDelivery.get() is not None
+                and _CurrentDelivery.get() in connection._disposing
+            ),
         )
 
     async def report_to_broker(
@@ -226,7 +229,8 @@ class _Processor:
 
         # the report is what disposes of the message: once started it runs to its end, even if this
         # task is cancelled right now (a half-done report followed by a reject would dispose twice)
-        self._disposing.add(key.id_)
+        if _CurrentDelivery.get() is not None:
+            self._disposing.add(_CurrentDelivery.get())
         report = asyncio.ensure_future(
             self.report_to_broker(actor, key, payload, parameters, result),
         )
